@@ -408,6 +408,9 @@ impl crux_core::App for ConcApp {
     }
 
     fn view(&self, model: &Vec<Event>) -> Vec<Event> {
+        // a schedule point in USER code: a thread can be parked inside `view`, i.e. while the core holds the model's read lock
+        // (a thread that then needs the write lock blocks; the schedule is given up after the patience and the outcome judged)
+        point("app:view");
         model.clone()
     }
 }
@@ -1116,6 +1119,31 @@ fn gen_corerace(seed: u64, n: usize) {
                 0 => list(vec![atom("ev"), atom(1 + g.r.below(3)), atom(j)]),
                 _ => list(vec![atom("res"), atom(g.r.below(4)), atom(100 + j)]),
             });
+        }
+        // one case in twenty: a thread is parked INSIDE `view` (the core holds the model's read lock) while another thread
+        // delivers a response or an event whose update emits a further effect: that call must still apply its event and hand
+        // out the effect itself (it blocks on the lock until the schedule is given up; only the outcome is judged)
+        if g.r.chance(1, 20) {
+            let follow = match g.r.below(3) {
+                0 => format!("(notify {} 1)", 7 + g.r.below(3)),
+                1 => format!("(req {} 0 10)", 7 + g.r.below(3)),
+                _ => format!("(then (event 10 1) (notify {} 2))", 7 + g.r.below(3)),
+            };
+            let (prog, act) = if g.r.chance(2, 3) {
+                (format!("((1 (req 1 0 2)) (2 {follow}))"), "(res 0 200)".to_string())
+            } else {
+                (format!("((1 (req 1 0 10)) (2 {follow}))"), "(ev 2 1)".to_string())
+            };
+            let mut o = vec![0usize; 1];
+            o.extend(vec![1; 48]);
+            o.extend(vec![0; 48]);
+            let (acts, o) = if g.r.chance(1, 2) {
+                (format!("((view) {act})"), o)
+            } else {
+                (format!("({act} (view))"), o.iter().map(|t| 1 - t).collect())
+            };
+            writeln!(out, "(corerace {prog} ((ev 1 0)) {acts} {})", order_sexp(&o)).unwrap();
+            continue;
         }
         // a third of the cases: sibling work inside ONE command (two requests / streams of one `and` / `all` / task pair), both
         // answered concurrently, one call preempted at a point of its own choosing — the wake-up of the second answer has to
